@@ -57,6 +57,8 @@ def n_cases(tier):
 def gen_case(rng, tier, idx):
     if idx == 0:
         return {"suite": True}     # the repository\'s own test-suite under the monitors (vmon/suitemon.py)
+    if idx == 1:
+        return {"kind": "toplevel"}     # the same calls made at module level of a script (vmon/toplevel_script.py)
     if idx % 5 == 4:
         return {"kind": "sig", "cls": SIG_KINDS[(idx // 5) % len(SIG_KINDS)], "pairs": 3000 if tier == "quick" else 40000}
     return {"kind": "connect", "cls": CONNECT_KINDS[idx % len(CONNECT_KINDS)]}
@@ -516,11 +518,25 @@ def run_sig(case, rng, mon):
                 break
     mon.counters["eq_matches_params"] += compared
     # a signature never equals an unrelated object / another class's signature
-    for other in (None, 5, "x", wiring.Signature({}), csr.Signature(addr_width=1, data_width=1) if cls != "csr.Signature"
-                  else gpio.PinSignature()):
-        mon.counters["eq_matches_params"] += 1
-        if sigs and sigs[0][1] == other:
-            mism.append(("eq_matches_params", f"{cls}{sigs[0][0]} == {other!r}"))
+    foreign = {"csr.Signature": lambda: csr.Signature(addr_width=4, data_width=8),
+               "csr.Element.Signature": lambda: csr.Element.Signature(8, "rw"),
+               "csr.FieldPort.Signature": lambda: csr.FieldPort.Signature(unsigned(8), "rw"),
+               "wishbone.Signature": lambda: wishbone.Signature(addr_width=4, data_width=8, features={"err"}),
+               "event.Source.Signature": lambda: event.Source.Signature(trigger="rise"),
+               "gpio.PinSignature": lambda: gpio.PinSignature()}
+    others = [None, 5, "x", wiring.Signature({})]
+    for name_, make in foreign.items():
+        if name_ != cls:
+            others += [make(), make().flip()]      # another class's signature, also as the flipped view a port carries
+    for mine in ([sigs[0][1], sigs[-1][1]] if sigs else []) + ([foreign[cls]()] if cls in foreign else []):
+        for other in others:
+            mon.counters["eq_matches_params"] += 1
+            try:
+                same = (mine == other) or (other == mine)
+            except Exception as e:
+                same = f"raised {type(e).__name__}: {e}"
+            if same:
+                mism.append(("eq_matches_params", f"{cls}: {mine!r} == {other!r} gives {same}"))
     for name, msg in mism[:6]:
         mon.violations.append({"monitor": name, "mechanism": f"{cls}:{name}", "msg": msg, "detail": {}})
     mon.bin("signature_classes", cls)
@@ -530,7 +546,31 @@ def run_sig(case, rng, mon):
     return mon.result(nontrivial=compared >= 20 or cls == "gpio.PinSignature", summary=summary)
 
 
+def run_toplevel(mon):
+    """create() / constructors / connect() called from the module level of a script run as a subprocess: the
+    shallowest call stack a user can have (build scripts, REPL, python -c)."""
+    import json
+    import os
+    import subprocess
+    import sys
+    script = os.path.join(env.VERIF, "vmon", "toplevel_script.py")
+    e = dict(os.environ, VERIF_REPO=env.REPO, PYTHONDONTWRITEBYTECODE="1")
+    try:
+        p = subprocess.run([sys.executable, script], capture_output=True, text=True, timeout=300, env=e, cwd="/var/tmp")
+        out = json.loads(p.stdout.strip().splitlines()[-1])
+    except Exception as exc:
+        mon.count("toplevel_script_inconclusive")
+        return mon.result(nontrivial=False, summary={"kind": "toplevel", "error": repr(exc)[:200]})
+    mon.count("module_level_calls", out["done"])
+    for f in out["failures"][:8]:
+        mon.violations.append({"monitor": "module_level_calls", "mechanism": "toplevel:" + f.split(":")[0],
+                               "msg": f"called at the module level of a script: {f}"[:400], "detail": {}})
+    return mon.result(nontrivial=out["done"] > 20, summary={"kind": "toplevel", "done": out["done"]})
+
+
 def run_case(case):
+    if case.get("kind") == "toplevel":
+        return run_toplevel(Mon())
     if case.get("suite"):
         return suite_case(Mon(), ['C20'], ['C20_creates'])
     rng = random.Random(case["stim_seed"])
